@@ -402,6 +402,51 @@ pub fn shard_run(tier: &str, seed: u64, replay_case: Option<usize>, shard: Shard
             }
         }
     }
+    // ---- an upload that stalls in the middle of its body (slow or flaky link) and then completes
+    if replay_case.is_none() && shard.k == (6 % shard.n) {
+        use crate::http::socket_request_two_parts;
+        let web = WebServer::new(Config::default().to_server(), None, InMemoryStorage::new());
+        if let Ok(srv) = SockServer::start(web, 2) {
+            let pauses: Vec<u64> = if thorough { vec![10_500, 31_000] } else { vec![10_500] };
+            for (i, ms) in pauses.iter().enumerate() {
+                for snapshot in [false, true] {
+                    let c = Uuid::new_v4();
+                    let data = PaySpec::new(6000 + i, 0, seed ^ 0x5A11 ^ i as u64).bytes();
+                    let mut vid = Uuid::nil();
+                    if snapshot {
+                        if let (Resp::AddOk { vid: v, .. }, _) = sock_exec(&srv.addr, c, &Req::AddVersion { parent: Uuid::nil(), data: b"v0".to_vec() }, None, Framing::ContentLength) {
+                            vid = v;
+                        }
+                    }
+                    let req = if snapshot { Req::AddSnapshot { vid, data: data.clone() } } else { Req::AddVersion { parent: Uuid::nil(), data: data.clone() } };
+                    let h = Subject::build_http(c, &req);
+                    let ms2 = *ms;
+                    let mut between = || std::thread::sleep(Duration::from_millis(ms2));
+                    let resp = socket_request_two_parts(&srv.addr, &h, 2500, Duration::from_secs(90), &mut between);
+                    let up = Subject::decode_http(&req, &resp);
+                    let (down, _) = if snapshot { sock_exec(&srv.addr, c, &Req::GetSnapshot, None, Framing::ContentLength) } else { sock_exec(&srv.addr, c, &Req::GetChild { parent: Uuid::nil() }, None, Framing::ContentLength) };
+                    cov.evaluations += 1;
+                    cov.hit(format!("stalled-upload|{}|pause={}s|upload={}", if snapshot { "snapshot" } else { "version" }, ms / 1000, up.outcome()));
+                    // either the upload is refused (a server may time a stalled client out) or it is stored whole
+                    let accepted = matches!(up, Resp::AddOk { .. } | Resp::SnapOk);
+                    let whole = match &down {
+                        Resp::Found { data: d, .. } | Resp::Snap { data: d, .. } => *d == data,
+                        _ => false,
+                    };
+                    if accepted && !whole {
+                        out.found.push(Found {
+                            property: "C06".into(),
+                            signature: "C06:stalled upload".into(),
+                            msg: format!("an upload of {} bytes whose sender paused {} s after the first 2500 bytes was acknowledged ({}) but is served as {}", data.len(), ms / 1000, up.outcome(), match &down { Resp::Found { data: d, .. } | Resp::Snap { data: d, .. } => format!("{} bytes (first difference at {:?})", d.len(), first_diff(d, &data)), o => o.short() }),
+                            replay: json!({"origin": "c06-stalled", "case": i}),
+                        });
+                        out.cov = cov;
+                        return out;
+                    }
+                }
+            }
+        }
+    }
     out.cov = cov;
     out
 }
@@ -418,7 +463,7 @@ pub fn finalize(out: ShardOut, is_replay: bool) -> CheckResult {
         "uploads": out.executed,
         "situations_top": top.iter().take(40).map(|(k, v)| json!({"situation": k, "n": v})).collect::<Vec<_>>(),
     });
-    let required = ["interleaved-uploads|workers=1", "Lib(Sqlite)|", "Http(Mem)|", "Http(Sqlite)|", "SocketMem|", "SocketBinary|", "chunking=five", "chunking=empty", "len~overflow-window", "len~big", "class=invalid-utf8", "class=numeric-text", "|snapshot|"];
+    let required = ["stalled-upload|", "interleaved-uploads|workers=1", "Lib(Sqlite)|", "Http(Mem)|", "Http(Sqlite)|", "SocketMem|", "SocketBinary|", "chunking=five", "chunking=empty", "len~overflow-window", "len~big", "class=invalid-utf8", "class=numeric-text", "|snapshot|"];
     let verdict = if !out.found.is_empty() {
         Verdict::Violated(out.found)
     } else if !out.errors.is_empty() {
